@@ -48,6 +48,7 @@ type mNode struct {
 	children map[string]*mNode
 	exec     map[string]bool
 	ls       *interval
+	wbLS     time.Time // white-box value, for diagnostics only
 }
 
 func pathKey(p []string) string { return strings.Join(p, "\x00") }
@@ -64,7 +65,7 @@ func (f *fairness) buildTree(q scheduler.VerifQueueKey, snap *scheduler.VerifSna
 		if inv.Queue != q {
 			continue
 		}
-		n := &mNode{path: inv.Path, id: inv.ID, children: map[string]*mNode{}, exec: map[string]bool{}, ls: f.lastStarted[inv.ID]}
+		n := &mNode{path: inv.Path, id: inv.ID, children: map[string]*mNode{}, exec: map[string]bool{}, ls: f.lastStarted[inv.ID], wbLS: inv.LastOperationStarted}
 		t.nodes[pathKey(inv.Path)] = n
 	}
 	get := func(p []string) *mNode {
@@ -263,7 +264,7 @@ func (f *fairness) acceptable(n *mNode, now time.Time, keys []string, limits []t
 			if c.ls != nil {
 				ls = fmt.Sprintf("%s..%s", c.ls.lo.Sub(startTime), c.ls.hi.Sub(startTime))
 			}
-			desc = append(desc, fmt.Sprintf("%s{exec=%d prio=%v score=%.4g..%.4g lastStarted=%s}", c.path[len(c.path)-1], len(c.exec), c.firstPriorities(), lo, hi, ls))
+			desc = append(desc, fmt.Sprintf("%s{exec=%d prio=%v score=%.4g..%.4g lastStarted=%s (scheduler's own field: %s)}", c.path[len(c.path)-1], len(c.exec), c.firstPriorities(), lo, hi, ls, c.wbLS.Sub(startTime)))
 		}
 		*why = append(*why, fmt.Sprintf("level %d candidates: %v", level, desc))
 	}
@@ -391,9 +392,15 @@ func (f *fairness) step(prev, snap *scheduler.VerifSnapshot, actingWorker *worke
 		}
 	}
 	// Operations attached to an already executing task.
+	prevTasks := map[uintptr]bool{}
+	for i := range prev.Operations {
+		if prev.Operations[i].Stage == remoteexecution.ExecutionStage_EXECUTING {
+			prevTasks[prev.Operations[i].TaskID] = true
+		}
+	}
 	for i := range snap.Operations {
 		op := &snap.Operations[i]
-		if op.Stage == remoteexecution.ExecutionStage_EXECUTING && findOp(prev, op.Name) == nil {
+		if op.Stage == remoteexecution.ExecutionStage_EXECUTING && findOp(prev, op.Name) == nil && prevTasks[op.TaskID] {
 			f.touch(snap, op.Queue, op.Invocation, now, true)
 		}
 	}
@@ -463,6 +470,11 @@ func (f *fairness) step(prev, snap *scheduler.VerifSnapshot, actingWorker *worke
 				}
 			}
 			if !ok {
+				for j := range prev.Invocations {
+					if pi := &prev.Invocations[j]; pi.Queue == nw.Queue && len(pi.QueuedChildren) > 0 {
+						why = append(why, fmt.Sprintf("scheduler's heap before the step at %s: %s priorities %v", shortInv(pi.Path), shortInv(pi.QueuedChildren), pi.QueuedChildrenPriorities))
+					}
+				}
 				var acc []string
 				for name := range out {
 					o2 := findOp(snap, name)
